@@ -69,13 +69,16 @@ def main():
         demo_cmd = re.sub(r'CARGO_TARGET_DIR=\S+\s*', '', demo_cmd)
         demo_cmd = re.sub(r'cd\s+/tmp/wt-\S+\s*&&\s*', '', demo_cmd)
         demo_cmd = demo_cmd.replace(f"/tmp/wt-{name}", wt)
+        m2 = re.search(r'(cargo test[^#\n]*)', demo_cmd)
+        if m2:
+            demo_cmd = m2.group(1).strip()
         if os.path.exists(f"{out}/demo.diff"):
             rc, o = sh(f"git apply {out}/demo.diff", cwd=wt)
             if rc != 0:
                 res["error"] = "demo.diff does not apply: " + o[-1000:]
                 return res
         for f in os.listdir(out):
-            if f.endswith(".rs"):
+            if f.endswith(".rs") and not os.path.exists(f"{wt}/tests/{f}"):
                 shutil.copy(f"{out}/{f}", f"{wt}/tests/{f}")
         rc1, o1 = sh(demo_cmd, cwd=wt, env=env, timeout=3600)
         open(f"{out}/confirm_demo_with.log", "w").write(o1)
